@@ -25,6 +25,7 @@ DEFINITE = [
     ("unable to prove pre-condition of closure", "precondition"),
     ("unable to prove assertion safety condition", "assertion"),
     ("precondition not satisfied", "precondition"),
+    ("precondition not met", "precondition"),
     ("assertion failed", "assertion"),
     ("invariant not satisfied", "invariant"),
     ("possible arithmetic underflow/overflow", "overflow"),
@@ -79,6 +80,7 @@ class Block:
         self.dropscan = []  # identifiers (prefix match) that must NOT occur in dropped text
         self.closures = []  # (nth, text): ghost result naming wrapped around the nth closure body of the fn
         self.bindclosures = []  # (nth, name): extraction rewrite - bind the nth closure expression to a local before its statement
+        self.desugarfors = []  # (nth, name, raw): extraction rewrite - `for P in E {..}` => `let mut name = E; loop { let Some(P) = name.next() else { break; }; .. }`
 
 
 def parse_template(path):
@@ -144,6 +146,11 @@ def parse_template(path):
                         mode = None
                     elif s2.startswith("//@spec"):
                         mode = "spec"
+                    elif s2.startswith("//@desugarfor"):
+                        m = re.match(r'//@desugarfor\s+nth=(\d+)\s+name=(\w+)(\s+raw)?', s2)
+                        if not m:
+                            raise ValueError("%s:%d bad desugarfor" % (path, i + 1))
+                        b.desugarfors.append((int(m.group(1)), m.group(2), bool(m.group(3))))
                     elif s2.startswith("//@bindclosure"):
                         m = re.match(r'//@bindclosure\s+nth=(\d+)\s+name=(\w+)', s2)
                         if not m:
@@ -238,6 +245,50 @@ def bind_closure(text, nth, name, fn, report):
     return new
 
 
+def desugar_for(text, nth, name, raw, fn, report):
+    """Extraction rewrite: the nth `for PAT in EXPR { BODY }` of the fn body becomes the loop the Rust reference defines it as,
+    `let mut NAME = IntoIterator::into_iter(EXPR); loop { let Some(PAT) = NAME.next() else { break; }; BODY }` (with `raw`,
+    EXPR is already an iterator and into_iter - the identity on iterators - is omitted). Lets ghost text state invariants over an
+    iterator type for which Verus has no for-loop support. The iterator variable outlives the loop (harmless: fresh name)."""
+    toks = rsrc.lex(text)
+    k = 0
+    while not (toks[k].kind == "p" and toks[k].text == "{"):
+        if toks[k].kind == "p" and toks[k].text in "([":
+            k = rsrc.match_close(toks, k)
+        k += 1
+    body_open = k
+    body_close = rsrc.match_close(toks, body_open)
+    fors = [i for i in range(body_open, body_close) if toks[i].kind == "id" and toks[i].text == "for"
+            and not (toks[i - 1].kind == "p" and toks[i - 1].text == ":")]
+    if nth >= len(fors):
+        raise Undecided("lost-anchor: for loop #%d not found in fn %s" % (nth, fn))
+    f = fors[nth]
+    if any(t.kind == "id" and t.text == name for t in toks):
+        raise Undecided("desugarfor: name %s already occurs in fn %s" % (name, fn))
+    j = f + 1
+    while not (toks[j].kind == "id" and toks[j].text == "in"):
+        if toks[j].kind == "p" and toks[j].text in "([{":
+            j = rsrc.match_close(toks, j)
+        j += 1
+        if j >= body_close:
+            raise Undecided("desugarfor: no `in` for loop #%d in fn %s" % (nth, fn))
+    in_tok = j
+    j += 1
+    while not (toks[j].kind == "p" and toks[j].text == "{"):
+        if toks[j].kind == "p" and toks[j].text in "([":
+            j = rsrc.match_close(toks, j)
+        j += 1
+    open_tok = j
+    pat = text[toks[f + 1].start:toks[in_tok - 1].end]
+    expr = text[toks[in_tok + 1].start:toks[open_tok - 1].end]
+    init = expr if raw else "core::iter::IntoIterator::into_iter(%s)" % expr
+    new = (text[:toks[f].start] + "let mut %s = %s; loop { let Some(%s) = %s.next() else { break; };" % (name, init, pat, name)
+           + text[toks[open_tok].end:])
+    report.append("for loop #%d (`for %s in %s`) desugared to `let mut %s = ..; loop { let Some(..) = %s.next() else { break; }; .. }`"
+                  % (nth, pat, expr, name, name))
+    return new
+
+
 def find_closures(toks, lo, hi):
     """Closures of a fn body in source order: list of (index of the closing `|` of the parameter list, first body token,
     last body token). A closure starts at a `|` in expression-start position (after `(`, `,`, `=`, `move`, `{`, `;`, `return`);
@@ -313,6 +364,8 @@ def extract_block(b, sources, scratch, canary=False):
     text = apply_rewrites(text, b.rewrites, rew_report)
     for nth, name in b.bindclosures:
         text = bind_closure(text, nth, name, b.args["fn"], rew_report)
+    for nth, name, raw in sorted(b.desugarfors, reverse=True):
+        text = desugar_for(text, nth, name, raw, b.args["fn"], rew_report)
     dropped_texts = []
     for pat, repl in b.droparms:
         toks = rsrc.lex(text)
